@@ -57,4 +57,77 @@ impl<T: ToVal> ToVal for std::collections::HashMap<String, T> {
 macro_rules! tok {
     ($($t:ty),*) => { $(impl ToVal for $t { fn to_val(&self) -> Val { Val::Tok(quote::ToTokens::to_token_stream(self).to_string()) } })* };
 }
-tok!(syn::Ident, syn::Visibility, syn::Type, syn::Generics, syn::Attribute, syn::Expr, syn::TypeParamBound, syn::Path);
+tok!(syn::Ident, syn::Visibility, syn::Type, syn::Attribute, syn::Expr, syn::TypeParamBound, syn::Path, syn::LifetimeParam, syn::ConstParam, syn::TypeParam, syn::WhereClause, syn::GenericParam, syn::Field, syn::Variant);
+
+impl ToVal for syn::Generics {
+    fn to_val(&self) -> Val {
+        Val::Rec(vec![
+            ("params".into(), Val::List(self.params.iter().map(|p| p.to_val()).collect())),
+            ("where".into(), self.where_clause.to_val()),
+            ("angle".into(), Val::B(self.lt_token.is_some())),
+        ])
+    }
+}
+impl ToVal for () {
+    fn to_val(&self) -> Val {
+        Val::Unit
+    }
+}
+impl ToVal for darling::util::Ignored {
+    fn to_val(&self) -> Val {
+        Val::Unit
+    }
+}
+impl<T: ToVal> ToVal for darling::Result<T> {
+    fn to_val(&self) -> Val {
+        match self {
+            Ok(v) => Val::Var("Ok".into(), Box::new(v.to_val())),
+            Err(e) => Val::Var("Err".into(), Box::new(Val::U(e.len() as u64))),
+        }
+    }
+}
+impl<T: ToVal> ToVal for darling::util::SpannedValue<T> {
+    fn to_val(&self) -> Val {
+        Val::Rec(vec![("spanned".into(), (**self).to_val()), ("span".into(), match crate::spans::cols(self.span()) {
+            Some((a, b)) => Val::List(vec![Val::U(a as u64), Val::U(b as u64)]),
+            None => Val::None,
+        })])
+    }
+}
+impl<T: ToVal, O: quote::ToTokens> ToVal for darling::util::WithOriginal<T, O> {
+    fn to_val(&self) -> Val {
+        Val::Rec(vec![("parsed".into(), self.parsed.to_val()), ("original".into(), Val::Tok(self.original.to_token_stream().to_string()))])
+    }
+}
+impl<T: ToVal> ToVal for darling::ast::Fields<T> {
+    fn to_val(&self) -> Val {
+        let style = match self.style {
+            darling::ast::Style::Tuple => "Tuple",
+            darling::ast::Style::Struct => "Struct",
+            darling::ast::Style::Unit => "Unit",
+        };
+        Val::Rec(vec![("style".into(), Val::S(style.into())), ("fields".into(), Val::List(self.fields.iter().map(|f| f.to_val()).collect()))])
+    }
+}
+impl<V: ToVal, F: ToVal> ToVal for darling::ast::Data<V, F> {
+    fn to_val(&self) -> Val {
+        match self {
+            darling::ast::Data::Enum(vs) => Val::Var("Enum".into(), Box::new(Val::List(vs.iter().map(|v| v.to_val()).collect()))),
+            darling::ast::Data::Struct(f) => Val::Var("Struct".into(), Box::new(f.to_val())),
+        }
+    }
+}
+impl<T: ToVal> ToVal for darling::ast::GenericParam<T> {
+    fn to_val(&self) -> Val {
+        match self {
+            darling::ast::GenericParam::Type(t) => Val::Var("Type".into(), Box::new(t.to_val())),
+            darling::ast::GenericParam::Lifetime(l) => Val::Var("Lifetime".into(), Box::new(l.to_val())),
+            darling::ast::GenericParam::Const(c) => Val::Var("Const".into(), Box::new(c.to_val())),
+        }
+    }
+}
+impl<P: ToVal> ToVal for darling::ast::Generics<P> {
+    fn to_val(&self) -> Val {
+        Val::Rec(vec![("params".into(), Val::List(self.params.iter().map(|p| p.to_val()).collect())), ("where".into(), self.where_clause.to_val())])
+    }
+}
